@@ -3,4 +3,4 @@
 Require Import Pk.TagApi.
 Require Extraction.
 Require Import ExtrOcamlBasic.
-Extraction "c11_model.ml" step step_orig init_state tags convs next_id.
+Extraction "c11_model.ml" step step_orig init_state tags convs next_id get complete_job.
